@@ -51,6 +51,9 @@ PROGRAMS = {
                           "# tags: [c, d, a, e], summary: \"s\", operationId: \"op\"\nlet op = get -> <[{ 'st st, 'ar ar }]> `examples: {p: \"p.json\", q: \"q.json\", r: \"r.json\"}`;\n"
                           "# tags: [e, f, a]\nlet op2 = op `tags: [z, a]`;\nres /items on op2;\n"
                           "res /other on (op `tags: [a, b]`), (put : <ar> -> <st>) `tags: [b, a, b]`;\n",
+    "references-first-met-as-arguments": "let @alpha = { 'a num };\nlet @bravo = { 'b str };\nlet @charlie = { 'c int };\nlet @delta = { 'd bool };\n"
+                                         "let bundle w x y z = { 'w w, 'x x, 'y y, 'z z };\nlet tree a = rec t { 'v a, 'kids [t] };\nlet two p q = { 'p p, 'q q };\n"
+                                         "res /bundle on get -> <bundle @alpha @bravo @charlie @delta>;\nres /two on get -> <two (tree int) (tree str)>;\n",
     "rec-inside-applied-functions": "let tree a = rec x { 'value a, 'children [x] };\nlet pair a b = { 'l tree a, 'r tree b };\n"
                                     "res /ints on get -> <tree int>;\nres /strs on get -> <tree str> :: <status=404, pair num bool>;\n",
 }
